@@ -3945,7 +3945,14 @@ reinit:
             lg_crcv->body_data = coap_block_build_body(lg_crcv->body_data, length, data,
                                                        saved_offset, size2);
             if (lg_crcv->body_data == NULL) {
-              goto fail_resp;
+              /*
+               * The block is recorded as received but is not stored (and any
+               * earlier part of the body is gone): give up on this body rather
+               * than complete it later around a hole.
+               */
+              if (COAP_RESPONSE_CLASS(rcvd->code) == 2)
+                rcvd->code = COAP_RESPONSE_CODE(408);
+              goto expire_lg_crcv;
             }
           }
           if (block.m || !check_all_blocks_in(&lg_crcv->rec_blocks,
